@@ -126,8 +126,69 @@ def tlc_admission(consts, invariants, properties=(), view="AdView", emit_file=No
     return r
 
 
+PL_INV = ["BooksReturnToZero", "OneEntryPerConnection", "CountersMatchMaps", "ReadyMeansNegotiated", "OneVersionPerConnection", "NeverNegative"]
+
+
+def peerlife_run(rigbin, tier, seed, only=None):
+    """PeerLife.tla: socket -> negotiation -> newPeers/donePeers -> handlers, the select taking either channel first."""
+    d = c.sub("peerlife")
+    runs = []
+
+    def consts(nc, mm, steps, findings="{}", emit="none"):
+        return {"Conns": "ConnsV", "DirOf": "DirV", "HostOf": "HostV", "GroupOf": "GroupV", "MaxMsgs": mm, "MaxPerHost": 5, "Findings": findings,
+                "Emit": '"%s"' % emit, "NConns": nc, "MaxSteps": steps}
+
+    def cfgfile(name, k, inv, view="View"):
+        path = os.path.join(d, name)
+        with open(path, "w") as f:
+            f.write("SPECIFICATION MSpec\nCONSTANTS\n")
+            for a, b in k.items():
+                f.write("  %s %s %s\n" % (a, "<-" if a in ("Conns", "DirOf", "HostOf", "GroupOf") else "=", b))
+            if view:
+                f.write("VIEW %s\n" % view)
+            f.write("INVARIANTS\n  %s\nCHECK_DEADLOCK FALSE\n" % "\n  ".join(inv))
+        return path
+    path = os.path.join(d, "peerlife.jsonl")
+    if only is None:
+        big = (2, 3, 16) if tier == "quick" else (3, 3, 22)
+        runs.append(c.tlc_must_pass(c.run_tlc("MC_PeerLife", cfgfile("ideal.cfg", consts(*big), PL_INV), workers=c.NCPU), "MC_PeerLife"))
+        # the model must be able to SEE the two defects the repaired code no longer has
+        for f, inv in (("dup-in-negotiation", "OneVersionPerConnection"), ("add-after-done", "BooksReturnToZero")):
+            r0 = c.run_tlc("MC_PeerLife", cfgfile("dev.cfg", consts(2, 3, 14, findings=c.tla_set([f])), [inv]), workers=4)
+            if r0.ok or not r0.violation:
+                raise c.Infra("model sensitivity lost: PeerLife.tla following %s no longer violates %s" % (f, inv))
+        raw = os.path.join(d, "peerlife.out")
+        gens = [(1, 3, 9), (2, 2, 12)] if tier == "quick" else [(1, 3, 9), (2, 2, 12), (2, 3, 16)]
+        lines = []
+        for nc, mm, steps in gens:
+            r = c.run_tlc("MC_PeerLife", cfgfile("gen.cfg", consts(nc, mm, steps, emit="paths"), ["EmitInv"], view=None), workers=1, out_file=raw)
+            c.tlc_must_pass(r, "MC_PeerLife")
+            runs.append(r)
+            allp = os.path.join(d, "all.jsonl")
+            c.unquote_lines(raw, allp)
+            lines.append(sorted(set(open(allp).read().splitlines())))
+        rng = random.Random(seed)
+        want = 2500 if tier == "quick" else 40000
+        picked = []
+        for ls in lines:
+            share = want // len(lines)
+            picked += ls if len(ls) <= share else rng.sample(ls, share)
+        with open(path, "w") as f:
+            f.write("\n".join(picked) + "\n")
+        c.log("  gen peerlife: %d behaviours (of %s emitted)" % (len(picked), [len(x) for x in lines]))
+    else:
+        picked = [json.dumps(only)]
+        with open(path, "w") as f:
+            f.write(picked[0] + "\n")
+    agg = fc.replay(rigbin, path, seed, op="peerlife", nproc=1 if only else 8)
+    return runs, agg
+
+
 def c18(tier, seed, replay_path=None):
     rigbin = build_rig()
+    if replay_path and json.load(open(replay_path))["case"].get("family") == "api" and (json.load(open(replay_path))["case"].get("mismatch") or {}).get("kind") == "peerlife":
+        runs, agg = peerlife_run(rigbin, tier, seed, only=json.load(open(replay_path))["case"]["behaviour"])
+        return simple_verdict("C18", agg, [])
     rng = random.Random(seed)
     runs = []
     # design: small constants, exhaustive
@@ -160,7 +221,34 @@ def c18(tier, seed, replay_path=None):
         gen[tag] = {"behaviours": min(n, num), "hosts": nh, "depth": depth}
         c.log("  gen C18%s: %d behaviours" % (tag, min(n, num)))
         aggs.append(fc.replay(rigbin, out, seed, op="admission", nproc=8))
+    # ---- the life of a connection: negotiation, the two channels, the select taking either first (PeerLife.tla)
+    pruns, pagg = peerlife_run(rigbin, tier, seed)
+    runs += pruns
+    aggs.append(pagg)
+    # the same on the RUNNING server: peerHandler kept busy by a query while a remote connects, sends its version and leaves;
+    # afterwards a well-behaved node from that address must be admitted (nobody from there is connected)
+    gd = c.sub("ghost")
+    ghost = None
+    for attempt in range(2):
+        gp = c.run_harness(rigbin, {"VERIF_OP": "ghost", "VERIF_OUT": os.path.join(gd, "o.json"), "VERIF_DB": os.path.join(gd, "g%d.db" % attempt),
+                                    "VERIF_ROUNDS": 24 if tier == "quick" else 120}, cwd=gd, timeout=900)
+        if gp.returncode != 0 or not os.path.exists(os.path.join(gd, "o.json")):
+            raise c.Infra("ghost run failed: %s" % gp.stderr[-1500:])
+        ghost = json.load(open(os.path.join(gd, "o.json")))
+        os.unlink(os.path.join(gd, "o.json"))
+        if ghost["admitted"] or attempt == 1:
+            break
+    if ghost["both_queued"] < ghost["rounds"] // 2:
+        raise c.Infra("vacuous ghost run: announcement and departure were queued together in only %d of %d visits" % (ghost["both_queued"], ghost["rounds"]))
+    c.log("  ghost: %s" % ghost)
     agg = merge(aggs)
+    if not ghost["admitted"]:
+        agg["mismatches"].append({"kind": "peerlife-running-server", "step": 0, "shard": None, "line": None,
+                                  "exp": "after %d short visits from 127.0.0.77 (announcement and departure queued together in %d of them) a well-behaved node from that address is admitted: "
+                                         "the service counts %d connected peers" % (ghost["rounds"], ghost["both_queued"], ghost["connected_count"]),
+                                  "got": "refused, twice in two runs: " + ghost["reason"]})
+    if agg["stats"].get("ev:procadd", 0) == 0 or agg["stats"].get("ev:procdone", 0) == 0 or agg["stats"].get("ev:msg", 0) == 0:
+        raise c.Infra("vacuous peerlife run: %s" % dict(agg["stats"]))
     # ---- connection manager: design (ConnMgr.tla) and recorded executions of the real one (Trace_ConnMgr.tla)
     d2 = c.sub("cfg")
     cmcfg = os.path.join(d2, "connmgr.cfg")
